@@ -32,36 +32,50 @@ Theorem held_handled_exactly_once : forall me ops,
    Permutation (received ops) (l_handled st)).
 Proof. exact held_handled_exactly_once_l. Qed.
 
-(* FULL STATEMENT (false of the code, see held_order_refuted):
-     forall me ops, posts_elsewhere me ops = true -> default_types ops = true ->
+(* FULL STATEMENT (false of the code, see the two refutations below):
+     forall me ops, posts_elsewhere me ops = true -> (all received messages have one type) ->
        l_handled st ++ l_brecv st ++ qmsgs (l_queue st) = received ops.
-   Proved with the exact guard [safe_run]: no start/resume re-injects held messages while a
-   message of type <= 19 (i.e. re-injected earlier) is still queued.  The equation says: handled
-   once, in reception order, and every held or queued message comes after the handled ones and
-   before any newer message.  [default_types]: messages have the default type MSG_ALGO (the
-   priority queue deliberately reorders different types, property C18). *)
-Theorem held_handled_once_in_order : forall me ops,
-  posts_elsewhere me ops = true -> default_types ops = true -> safe_run (linit me) ops = true ->
+   Proved with the exact guards
+     [REINJECT < t /\ uniform_types t ops]: the received messages all have type t > 19 (the default
+        MSG_ALGO = 20 in particular; the priority queue deliberately reorders different types, C18);
+     [safe_run]: no start/resume re-injects held messages while a message of type <= 19 (i.e. one
+        re-injected earlier) is still queued.
+   The equation says: handled once, in reception order, and every held or queued message comes
+   after the handled ones and before any newer message. *)
+Theorem held_handled_once_in_order : forall t me ops,
+  REINJECT < t ->
+  posts_elsewhere me ops = true -> uniform_types t ops = true -> safe_run (linit me) ops = true ->
   let st := lrun (linit me) ops in
   l_handled st ++ l_brecv st ++ qmsgs (l_queue st) = received ops.
 Proof. exact held_handled_once_in_order_l. Qed.
 
-Theorem held_handled_all_when_quiescent : forall me ops,
-  posts_elsewhere me ops = true -> default_types ops = true -> safe_run (linit me) ops = true ->
+Theorem held_handled_all_when_quiescent : forall t me ops,
+  REINJECT < t ->
+  posts_elsewhere me ops = true -> uniform_types t ops = true -> safe_run (linit me) ops = true ->
   let st := lrun (linit me) ops in
   l_running st = true -> l_paused st = false -> l_queue st = [] ->
   l_handled st = received ops /\ l_brecv st = [].
 Proof. exact held_handled_all_when_quiescent_l. Qed.
 
-(* The guard cannot be dropped: receive a, b before start; start; pause; the loop pops a (held
+(* [safe_run] cannot be dropped: receive a, b before start; start; pause; the loop pops a (held
    again); resume re-injects a behind b.  Known finding C19-reinject-behind-queued. *)
 Theorem held_order_refuted :
   exists me ops,
-    posts_elsewhere me ops = true /\ default_types ops = true /\
+    posts_elsewhere me ops = true /\ uniform_types MSG_ALGO ops = true /\
     let st := lrun (linit me) ops in
     l_running st = true /\ l_paused st = false /\ l_queue st = [] /\ l_brecv st = [] /\
     received ops = [(6, 1); (5, 2)] /\ l_handled st = [(5, 2); (6, 1)].
 Proof. exact held_order_refuted_l. Qed.
+
+(* [REINJECT < t] cannot be dropped: a held message of type 10 is re-queued with type 19 and a
+   newer type-10 message overtakes it.  Known finding C19-held-requeued-as-19. *)
+Theorem held_priority_refuted :
+  exists me ops,
+    posts_elsewhere me ops = true /\ uniform_types 10 ops = true /\ safe_run (linit me) ops = true /\
+    let st := lrun (linit me) ops in
+    l_running st = true /\ l_paused st = false /\ l_queue st = [] /\ l_brecv st = [] /\
+    received ops = [(6, 1); (6, 2)] /\ l_handled st = [(6, 2); (6, 1)].
+Proof. exact held_priority_refuted_l. Qed.
 
 (* non-vacuity: a history meeting every hypothesis of the ordering theorem in which messages are
    received before start and while paused, posts are made while paused, and everything comes
@@ -71,7 +85,7 @@ Example c19_nonvacuous :
               Recv 5 3 None; LNext; LNext; LPost 2 11 (Some 15); Recv 6 4 None; Resume;
               LNext; LNext; LNext] in
   let st := lrun (linit 0) ops in
-  posts_elsewhere 0 ops = true /\ default_types ops = true /\ safe_run (linit 0) ops = true /\
+  posts_elsewhere 0 ops = true /\ uniform_types MSG_ALGO ops = true /\ safe_run (linit 0) ops = true /\
   l_running st = true /\ l_paused st = false /\ l_queue st = [] /\
   l_handled st = [(5, 1); (6, 2); (5, 3); (6, 4)] /\
   out 0 (l_calls st) = [mkCall 0 1 10 None; mkCall 0 2 11 (Some 15)] /\
